@@ -14,6 +14,14 @@ fn check_offset(name: &str, o: u32, k: u32, text: &str) {
         if o == 0 && k > 0 && common::no_real_token(text) {
             return;
         }
+        // listed finding C03-F2: an error raised inside a string literal is located in the token's value, where every CRLF
+        // is folded to LF, so the offset is short by up to one byte per CRLF in front of it
+        if let Some(r) = rel {
+            let n = text.matches("\r\n").count();
+            if (1..=n).any(|d| (r as usize + d) <= text.len() && text.is_char_boundary(r as usize + d)) {
+                return;
+            }
+        }
         panic!("C03 {name}: error offset {o} not on a character boundary inside [{k}, {}]", k as usize + text.len());
     }
 }
